@@ -24,6 +24,30 @@ CHECKS = {
  "C16": dict(technique="Coq proof: the same inductive invariant in pay mode (pay command creating parts, every contract-respecting outcome) + exhaustive interleaving exploration of the real pay wrapper",
    text="C16_pay: for every initial part configuration, every way the pay command ends (subject to N1-N3) and every later resolution order, the wrapper's Ok carries the preimage of a completed part and its final Err comes only when every part has failed and no pay runs; an Err caused by a failing list/wait RPC is the explicit third outcome (known-finding class KF-B, kf_read_error), C16_needs_N2 records the contract boundary.",
    note="Trusted: Coq kernel; contract N1 (complete carries a part's preimage), N2 (failed without warning only when nothing is pending/complete), N3; harness. No axioms.", design="6/C16"),
+ "C03": dict(technique="Coq proof: inductive invariants (uniqueness of the attached lifecycle, entry arithmetic) over ALL event histories of the composite per-hash system + trace correspondence/monitor with the real HtlcManager",
+   text="C03_pay_covered: in every reachable state of the composite model (any durable start state, any number of HTLCs, RPC faults, part resolutions, ticks, crashes), a step that issues a pay request has an entry whose held HTLCs sum (unbounded) to at least deliver + base + deliver*ppm/1e6, grants maxfee <= held - deliver, passes no amount for fixed-amount invoices and exactly the declared amount otherwise, and answers nobody in that step; C03_held_until_fate: while the pay request is outstanding only the delivery of its reply makes the plugin answer HTLCs of the hash. Correspondence: the real HtlcManager + ClnDatastore + PayPaymentProvider under a deterministic scheduler on a simulated node (dev and release builds), replayed step by step through the model, plus the property monitor on the implementation's own trace.",
+   note="Trusted: Coq kernel; environment contract N1-N6; the step = run-to-quiescence reduction (DESIGN 3.2); harness, simulated node (cross-checked against Node.v on every reply), trace converter. No axioms.", design="6/C03"),
+ "C04": dict(technique="Coq proof: step theorem at the initiation of an attempt + doomed-set invariant + trace correspondence/monitor",
+   text="C04_initiation: whenever the in-flight marker of a new attempt is issued, the lifecycle records maxdelay = min(clamp_u16((min expiry of the HTLCs held at that step - height of that step) - cltv_delta), policy delta), hence <= both bounds; C04_values_travel / C04_capped_at_pay: the value reaches the pay request unchanged; C04_low_expiry_rejects + C04_doomed_never_paid: a too-low relative expiry arriving before the set is funded dooms the set and no attempt is ever started for a doomed set. Correspondence as for C03 with heights changing between HTLCs and before the pay, expiries around height+delta, negative relative expiries.",
+   note="Trusted: as C03. No axioms.", design="6/C04"),
+ "C07": dict(technique="Coq proof: step theorem for ALL states and events + doomed-set invariant + trace correspondence/monitor",
+   text="C07_same_resolution: for every state and every event, either nobody is answered or every HTLC held for the hash (the arriving one included) is answered in that step with one identical response and the entry is dropped; C07_rejection_dooms / C07_doomed_never_paid: a rejection by any of the four gates in a not-yet-ready set dooms it and no outgoing attempt is started for it. Correspondence: rejecting HTLCs of every kind at every position relative to lifecycle progress.",
+   note="Trusted: as C03. No axioms.", design="6/C07"),
+ "C11": dict(technique="Coq proof: timer invariant (deadline window) + step theorems at/before the deadline + trace correspondence/monitor on a paused clock",
+   text="C11_deadline_window: every lifecycle in the select! has now < deadline <= now + mpp in every reachable state; C11_not_before: a tick short of every deadline changes only the clock; C11_at_timeout: at the deadline every held HTLC gets temporary_trampoline_failure, the entry is dropped, no RPC is issued; C11_restart_bound: the wait is the full timeout after a Free/absent state and timeout-minus-age after an interrupted attempt, never more. Correspondence: ticks to 1 ms before and to the deadline, restarts with stored attempts dated in the past, now and AHEAD of the clock.",
+   note="PARTIAL as to real time: the model clock is virtual (tokio's paused clock in the harness); timer-wheel granularity and the OS clock are runtime. Trusted: as C03. No axioms.", design="6/C11"),
+ "C14": dict(technique="Coq proof: the global system is a product of per-hash components (locality theorems) + freeze-schedule differential test of the implementation against itself",
+   text="C14_event_is_local / C14_htlc_is_local / C14_global_events_pointwise: an event of hash h changes only component h by exactly its per-hash step; ticks, height changes and crashes reach each component independently. Correspondence: hash A frozen at each of 14 lifecycle stages (plus policy-violating stragglers of A) while hash B runs a full payment story; B's responses, calls and node replies must equal B's solo run, and both traces replay through the product model.",
+   note="The weight is on the correspondence (a lock held across an await or a shared key shows up as B's output missing or changed). Trusted: as C03. No axioms.", design="6/C14"),
+ "C17": dict(technique="Coq proof (framing under every partition of the stream, writer round trip) + real codec/driver correspondence",
+   text="C17_chunking: feeding ANY list of read chunks yields exactly the frames of the concatenated stream, each once, in order, with the same remainder (splits inside the separator or a UTF-8 sequence included); C17_writer: whole-message appends decode back to those messages; C17_ids: a completion writes one reply with that id. Correspondence: real MultiLineCodec on every partition of short streams and random partitions of real message streams; the real Builder/PluginDriver in-process on 1..64-byte duplex pipes with handlers finishing in adversarial order.",
+   note="PARTIAL: serde_json never emitting a raw newline, FramedWrite::send writing a whole frame under the mutex, and handler-task scheduling are library behaviour (exercised, not proved). No axioms.", design="6/C17"),
+ "C19": dict(technique="Coq proof of the option decision table + end-to-end agreement of the real binary (fake lightningd) with it",
+   text="C19_config: configure opts = Some c iff every value fits its width, cltv < policy delta, timeouts non-negative, and then c carries exactly those values (retry capped at 65535, allow_self = not flag). Correspondence: the real binary is started against a fake lightningd for boundary assignments of every option; observed: started/refused, policy bytes of a fee failure, retry_for and maxdelay of a pay request, MPP timing, self-route-hint answer.",
+   note="PARTIAL: real-time MPP timing within [-0.1,+0.8] s; lightningd's own option parsing not modelled. No axioms.", design="6/C19"),
+ "C20": dict(technique="Coq proof (height = fold max of everything told; poll period) + real BlockWatcher on a paused clock",
+   text="C20_max: the height equals the maximum of all heights told (startup, polls, notifications) for every event list; C20_never_decreases; C20_poll_period: the next getinfo is issued by the first tick reaching completion+60 s, not before, failed polls included; C20_catch_up: a successful poll carrying v makes the height >= v for ever. Correspondence: real BlockWatcher with stale/repeated/failing inputs and ticks at 59999+1 ms.",
+   note="PARTIAL: RPC latency (the delta of the catch-up bound) and the real timer are runtime. No axioms.", design="6/C20"),
 }
 
 manifest = {
